@@ -825,6 +825,10 @@ class Interp:
                             z3.SubSeq(c.term, i + 1, n - i - 1))
             self.st.set_list_term(base.loc, new)
             return
+        if isinstance(base, VElem) and 'call_default' in self.spec_funcs:
+            # wiring contracts: a store into an object outside the model is a recorded call, like any other callee
+            self.spec_funcs['call_default'](self, 'method', '__setitem__', base, [key, v], {})
+            return
         raise Unsupported('item store on %r' % (base,))
 
     # ------------------------------------------------------------ dict primitives
@@ -978,6 +982,9 @@ class Interp:
         if not self.spec_mode and not self.segment_mode and n in self.assigned_locals(fr):
             # a local that is assigned somewhere in the function but not on this path
             self.raise_('UnboundLocalError')
+        if 'call_default' in self.spec_funcs and n in getattr(self.index, 'module_imports', ()):
+            # wiring contracts (every callee an uninterpreted function of its name and arguments): a name the module imports
+            return VBuiltin(n)
         raise Unsupported('unknown name %s in %s' % (n, fr.qual))
 
     def assigned_locals(self, fr):
@@ -1062,6 +1069,8 @@ class Interp:
                 if not hasattr(cell, 'with_field'):
                     cell.fields[name] = v
                 return v
+            if 'attr_default' in self.spec_funcs and not self.spec_mode and name == '__dict__':
+                return self.spec_funcs['attr_default'](self, obj, name)      # the instance dictionary: opaque under wiring contracts
             raise Unsupported('attribute %s of %s' % (name, cell.cls))
         if isinstance(obj, VRef):
             if obj.cls:
@@ -1991,6 +2000,14 @@ class Interp:
             if self.branch(has):
                 return self.dict_get_value(recv, kt)
             return args[1] if len(args) > 1 else NONE
+        if name == 'setdefault' and len(args) == 2 and not kwargs:
+            # d.setdefault(k, v): d[k] if k is present, else d[k] = v (appended at the end) and v
+            if c.kkind is not None:
+                kt = self.term_of(args[0], c.kkind)
+                if self.branch(z3.Contains(c.keys, z3.Unit(kt))):
+                    return self.dict_get_value(recv, kt)
+            self.set_item(recv, args[0], args[1])
+            return args[1]
         if name == 'values':
             h = self.spec_funcs.get('dict_values')
             if h is None:
@@ -2083,7 +2100,8 @@ def _concat_parts(t):
 
 
 EXC_CLASSES = {'ValueError', 'KeyError', 'IndexError', 'TypeError', 'RuntimeError', 'StopIteration',
-               'AssertionError', 'Exception', 'ZeroDivisionError'}
+               'AssertionError', 'Exception', 'ZeroDivisionError', 'AttributeError', 'NotImplementedError', 'OSError',
+               'UnicodeDecodeError', 'TimeoutError'}
 
 
 # ---------------------------------------------------------------- builtins
